@@ -19,6 +19,13 @@ type funcInfo struct {
 	fn     *ssa.Function
 	regIdx map[ssa.Value]int
 	nregs  int
+	defs   []regDef // every instruction that defines a register, with its block
+}
+
+type regDef struct {
+	idx   int
+	blk   *ssa.BasicBlock
+	isPhi bool
 }
 
 var funcInfos sync.Map // *ssa.Function -> *funcInfo
@@ -41,6 +48,8 @@ func getFuncInfo(fn *ssa.Function) *funcInfo {
 		for _, in := range b.Instrs {
 			if v, ok := in.(ssa.Value); ok {
 				fi.regIdx[v] = n
+				_, isPhi := in.(*ssa.Phi)
+				fi.defs = append(fi.defs, regDef{idx: n, blk: b, isPhi: isPhi})
 				n++
 			}
 		}
@@ -51,29 +60,29 @@ func getFuncInfo(fn *ssa.Function) *funcInfo {
 }
 
 type Engine struct {
-	prog      *ssa.Program
-	ts        *TermStore
-	sol       *Solver
-	maxFork   int
-	maxUnwind int
-	maxSteps  int
-	maxPaths  int
-	redirects map[string]*ssa.Function // real function name -> harness function
-	initPkgs  map[string]bool
-	pinned    map[string]uint64 // non-nil: nondets are fixed to these values (translator validation)
-	res       *RunResult
-	known     map[string][]string // obligation label -> known-finding classes
-	trace     bool
-	fnsSeen   map[string]bool
-	modelsUsed map[string]bool
-	harnessPkg *ssa.Package
-	opaqueErrT types.Type
-	curParams []int
-	noIfConv  bool
-	specDepth int
-	pinPartial bool
+	prog                  *ssa.Program
+	ts                    *TermStore
+	sol                   *Solver
+	maxFork               int
+	maxUnwind             int
+	maxSteps              int
+	maxPaths              int
+	redirects             map[string]*ssa.Function // real function name -> harness function
+	initPkgs              map[string]bool
+	pinned                map[string]uint64 // non-nil: nondets are fixed to these values (translator validation)
+	res                   *RunResult
+	known                 map[string][]string // obligation label -> known-finding classes
+	trace                 bool
+	fnsSeen               map[string]bool
+	modelsUsed            map[string]bool
+	harnessPkg            *ssa.Package
+	opaqueErrT            types.Type
+	curParams             []int
+	noIfConv              bool
+	specDepth             int
+	pinPartial            bool
 	ruleTried, ruleProved bool
-	ifSites   map[siteKey]*siteStat
+	ifSites               map[siteKey]*siteStat
 }
 
 func (e *Engine) fnName(fn *ssa.Function) string {
@@ -626,6 +635,19 @@ func (e *Engine) doReturn(st *State, rv Value) {
 // ---------- operators ----------
 
 func (e *Engine) binop(st *State, op token.Token, a, b Value, ta, tb types.Type) Value {
+	// operands whose value is already fixed on this path (by an earlier concretisation) are
+	// used as constants: the path condition contains term == value, so this is sound, and it keeps
+	// e.g. a division by a non-power-of-two out of every later query.
+	if t, ok := a.(*Term); ok && t.op != OpConst && os.Getenv("VERIF_NO_BINDSUBST") == "" {
+		if v, known := st.bind[t.id]; known {
+			a = e.ts.constOf(t.w, v)
+		}
+	}
+	if t, ok := b.(*Term); ok && t.op != OpConst && os.Getenv("VERIF_NO_BINDSUBST") == "" {
+		if v, known := st.bind[t.id]; known {
+			b = e.ts.constOf(t.w, v)
+		}
+	}
 	switch op {
 	case token.EQL:
 		return e.eqValue(a, b)
